@@ -35,7 +35,7 @@ ASSUMPTIONS = [
 
 SETTINGS: Dict[str, Dict[str, Any]] = {
     "quick": {"cases": 2400, "cli_cases": 48, "budget_s": 50, "minimums": {"corpus_runs": 100, "decisions": 2000, "nontrivial": 500, "cli_fractions": 30}},
-    "thorough": {"cases": 120000, "cli_cases": 320, "budget_s": 420, "minimums": {"corpus_runs": 100, "decisions": 100000, "nontrivial": 20000, "cli_fractions": 500}},
+    "thorough": {"cases": 120000, "cli_cases": 320, "budget_s": 420, "minimums": {"corpus_runs": 100, "decisions": 60000, "nontrivial": 12000, "cli_fractions": 300}},
 }
 
 def _observe(ctx: Any, ip: Any, family: str, hist: Dict[str, Any], sched: Dict[int, str], lines: Any = None) -> None:
